@@ -131,6 +131,9 @@ func (g *gram) newline() {
 	g.i++
 	for k, r := range g.pending {
 		h := g.pendSym[k]
+		if !h.quotedDelim && (strings.Contains(h.body, "${v\n") || strings.Contains(h.body, "a`b\n")) {
+			g.fail("unterminated expansion in the body of a here-document with an unquoted delimiter")
+		}
 		r.Heredoc, r.Delim = hereBody(h)
 	}
 	g.pending, g.pendSym = nil, nil
